@@ -261,4 +261,24 @@ def run(ctx):
     run.rule(R7, "a reverted payment stays re-confirmable: the automatic expiry step of a refresh does not cancel a TxReverted entry (which would delete its output)", floor=1)
     from .shared import expiry_step_scope
     expiry_step_scope(ctx, R7, ("reverted",))
+    R8 = "C18.R8"
+    run.rule(R8, "a received output that is reserved by a pending send when its block is reorganised away is still attributed to the payment that created it", floor=1)
+    lk8 = ctx.fn(c.LW + "internal::selection::lock_tx_context")
+    mw8 = ctx.fn(c.LW + "internal::updater::map_wallet_outputs")
+    if lk8 is None or mw8 is None:
+        run.error("C18.R8: lock_tx_context / map_wallet_outputs not found")
+    else:
+        OD8 = c.LW + "types::OutputData"
+        relinked = bool(vf.field_assignments(lk8, OD8, "tx_log_entry"))
+        # which statuses make a vanished output a revert candidate
+        lits = set()
+        for x in cfg.comparisons(mw8):
+            pl, pr = vf.producers(mw8, x.l), vf.producers(mw8, x.r)
+            for a, b_ in ((pl, pr), (pr, pl)):
+                if x.op == "Eq" and vf.has_field(a, OD8, "status"):
+                    lits |= {y[2] for y in b_ if y[0] == "agg" and y[1] == c.LW + "types::OutputStatus"}
+        held = not relinked or "Locked" in lits
+        run.instance(R8, {"fn": "lock_tx_context / map_wallet_outputs", "obligation": "a reservation keeps the output's link to the entry that created it, or reserved outputs are revert candidates too", "reservation re-points tx_log_entry": relinked, "candidate statuses": sorted(lits)}, held=held)
+        if not held:
+            run.finding(Finding(R8, lk8.id, "reserving an output re-points its tx_log_entry to the pending send and only outputs that were Unspent are examined for a revert: a payment whose output is reserved when its block is reorganised away is never reported reverted (the output is marked Spent, the entry stays confirmed)", site=lk8.loc()))
     run.not_decided += ["fork depths, repeated flip-flops, what a scan reports after a reorganisation (histories over a chain)"]
